@@ -676,6 +676,24 @@ def protocolConnRoundTripModelRow (sc : List String) : List String :=
   [if cflag sc "isRawExchanger" && isRawWire (authWire (if cflag sc "rawRequired" then 0 else 1) 0 []) then "rawExchange"
    else "framedRoundTrip"]
 
+/-- the three small wrappers around one exchange: a transport failure is passed on, an error code in a well-formed
+answer becomes a `kafka.Error` (`react`'s `failWith (.kafka err)`), otherwise the exchange succeeded -/
+def wrapperModelRow (ph : Phase) (pre : List String) (sc : List String) : List String :=
+  if cflag sc "negotiateFailed" then pre ++ ["return"]
+  else
+    let e : Env := if cflag sc "exchangeFailed" then .ioerr else if cflag sc "errorCodeInAnswer" then .reply 33 [] false else .reply 0 [] false
+    match react { path := .dialer, sasl := true } ph e with
+    | none => ["model: event not enabled"]
+    | some a =>
+      pre ++ ["exchange"] ++ (match a.err with | some (.kafka _) => ["kafkaError"] | _ => []) ++ ["return"]
+
+theorem wrapper_flows_are_the_model :
+    Gen.MuxFacts.connSaslHandshakeFlow.all
+      (fun (sc, eff) => wrapperModelRow (.awaitHandshake 1 0) ["negotiate:saslHandshake"] sc == eff) = true ∧
+    Gen.MuxFacts.saslHandshakeRoundTripFlow.all (fun (sc, eff) => wrapperModelRow (.awaitHandshake 1 0) [] sc == eff) = true ∧
+    Gen.MuxFacts.saslAuthenticateRoundTripFlow.all (fun (sc, eff) => wrapperModelRow (.awaitAuth 1 0) [] sc == eff) = true := by
+  decide
+
 theorem framing_flows_are_the_model :
     Gen.MuxFacts.connSaslAuthenticateFlow.all (fun (sc, eff) => connSaslAuthenticateModelRow sc == eff) = true ∧
     Gen.MuxFacts.protocolConnRoundTripFlow.all (fun (sc, eff) => protocolConnRoundTripModelRow sc == eff) = true := by
